@@ -40,6 +40,7 @@ const PRESENTATION: &[(&str, &str)] = &[
     ("fill", "#ff0000"), ("stroke", "rgb(1, 2, 3)"), ("stroke-width", "2.5"), ("opacity", ".5"), ("fill", "url(#lg)"), ("transform", "rotate(45 10 10)"),
     ("stroke-dasharray", "1 2, 3"), ("font-size", "12px"), ("style", "fill: none; stroke: blue"), ("class", "mine other"), ("id", "own"), ("clip-rule", "evenodd"),
     ("visibility", "hidden"), ("display", "none"), ("xml:space", "preserve"), ("data-custom", "a b c"), ("tabindex", "0"), ("pointer-events", "none"),
+    ("clip-path", "none"), ("clip-path", "circle(40%)"), ("clip-path", "inherit"), ("mask", "none"), ("filter", "none"), ("marker-end", "none"), ("fill", "none"),
 ];
 
 fn parse_number(s: &str) -> Option<f64> {
@@ -351,7 +352,8 @@ pub fn run(tier: Tier) -> i32 {
     }
     let tfs = [
         "translate(10)", "translate(10,20)", "translate(10 20)", "scale(2)", "scale(2,3)", "rotate(45)", "rotate(45,10,10)", "rotate(45 10 10)", "skewX(10)", "skewY(-10)",
-        "matrix(1 0 0 1 5 5)", "matrix(1,0,0,1,5,5)", "translate(1e1,-.5)", "translate( 10 , 20 )", "TRANSLATE(10)",
+        "matrix(1 0 0 1 5 5)", "matrix(1,0,0,1,5,5)", "translate(1e1,-.5)", "translate( 10 , 20 )",
+        "translate (10)", "translate\t( 10 )", " translate(10) ", "translate(10-5)", "scale(.5.5)", "rotate(45,10 10)", "scale(2)\ttranslate(1)",
     ];
     for a in tfs {
         for el in ["rect width=\"5\" height=\"5\"", "g", "circle r=\"3\"", "path d=\"M0 0 L5 5\"", "text"] {
@@ -421,11 +423,38 @@ pub fn run(tier: Tier) -> i32 {
     rep.sample(json!({"leg": "structure", "doc": sdocs[sdocs.len() / 2].0}));
     rep.absorb("structure", st);
 
+    // ---- (c2) attributes of the root element itself are preserved
+    let mut rdocs: Vec<(String, String)> = Vec::new();
+    for (k, v) in PRESENTATION {
+        if *k == "transform" && *v == "none" {
+            continue;
+        }
+        rdocs.push((format!("<svg {k}=\"{v}\"><rect x=\"0\" y=\"0\" width=\"5\" height=\"5\"/></svg>"), format!("root/{k}")));
+        rdocs.push((format!("<svg {k}=\"{v}\" viewBox=\"0 0 9 9\" width=\"90\" height=\"90\"><g {k}=\"{v}\"><circle cx=\"2\" cy=\"2\" r=\"1\"/></g></svg>"), format!("root+g/{k}")));
+    }
+    for extra in ["preserveAspectRatio=\"xMidYMid meet\"", "xmlns:xlink=\"http://www.w3.org/1999/xlink\"", "lang=\"en\"", "role=\"img\" aria-label=\"a &amp; b\"", "onclick=\"f()\"", "baseProfile=\"full\"", "x=\"3\" y=\"4\""] {
+        rdocs.push((format!("<svg {extra}><rect x=\"0\" y=\"0\" width=\"5\" height=\"5\"/></svg>"), format!("root/{}", extra.split('=').next().unwrap_or(""))));
+    }
+    let st = run_space(rdocs.len(), |i| check(&rdocs[i].0, "root", &rdocs[i].1));
+    rep.sample(json!({"leg": "root", "doc": rdocs[rdocs.len() / 2].0}));
+    rep.absorb("root", st);
+
     // ---- (d) the documented reinterpretation: character-only content becomes generated text
     let tdocs = [
         ("<svg><text x=\"3\" y=\"4\">hello</text></svg>", "text", "hello"),
         ("<svg><rect x=\"0\" y=\"0\" width=\"10\" height=\"10\">label</rect></svg>", "rect", "label"),
         ("<svg><circle cx=\"5\" cy=\"5\" r=\"5\">c &amp; d</circle></svg>", "circle", "c & d"),
+        ("<svg><text>no position</text></svg>", "text", "no position"),
+        ("<svg><text x=\"3\">only x</text></svg>", "text", "only x"),
+        ("<svg><text x=\"10 20 30\" y=\"5\">abc</text></svg>", "text", "abc"),
+        ("<svg><text x=\"10,20,30\" y=\"5 6 7\">abc</text></svg>", "text", "abc"),
+        ("<svg><text x=\"10mm\" y=\"5\">unit</text></svg>", "text", "unit"),
+        ("<svg><text x=\"50%\" y=\"50%\">percent</text></svg>", "text", "percent"),
+        ("<svg><text x=\"1em\" y=\"2ex\" dx=\"1 2\">em</text></svg>", "text", "em"),
+        ("<svg><text x=\"3\" y=\"4\" dx=\"1 2 3\" rotate=\"10 20\">lists</text></svg>", "text", "lists"),
+        ("<svg><text x=\"3\" y=\"4\" textLength=\"30\" lengthAdjust=\"spacing\">tl</text></svg>", "text", "tl"),
+        ("<svg><defs><text id=\"dt\" x=\"1 2\" y=\"3\">in defs</text></defs></svg>", "text", "in defs"),
+        ("<text x=\"1 2\" y=\"3\">fragment</text>", "text", "fragment"),
     ];
     let st = run_space(tdocs.len(), |i| {
         let (doc, el, txt) = tdocs[i];
@@ -433,10 +462,16 @@ pub fn run(tier: Tier) -> i32 {
         let mut viol = None;
         match &out {
             Outcome::Ok(o) => {
-                let tree = xmlref::parse_tree(o, Mode::Document).unwrap_or_default();
-                let root = xmlref::root(&tree);
-                let texts: Vec<String> = root.map(|r| r.elements().filter(|e| e.name == "text").map(|e| e.text()).collect()).unwrap_or_default();
-                let has_shape = el == "text" || root.map(|r| r.elements().any(|e| e.name == el)).unwrap_or(false);
+                let tree = xmlref::parse_tree(o, Mode::Content).unwrap_or_default();
+                let mut all: Vec<&Element> = Vec::new();
+                for n in &tree {
+                    if let Node::El(e) = n {
+                        all.push(e);
+                        all.extend(e.descendants());
+                    }
+                }
+                let texts: Vec<String> = all.iter().filter(|e| e.name == "text").map(|e| e.text()).collect();
+                let has_shape = el == "text" || all.iter().any(|e| e.name == el);
                 if !has_shape || !texts.iter().any(|t| t.trim() == txt) {
                     viol = Some(format!("{doc}\nexpected the {el} and a generated <text> containing {txt:?}\n{}", clip(&String::from_utf8_lossy(o), 300)));
                 }
